@@ -257,21 +257,33 @@ func discharge(o *Obligation, idx int, opt solveOpts) {
 		if !opt.retried {
 			o2 := opt
 			o2.retried = true
-			o2.timeoutS = opt.timeoutS * 2
+			o2.timeoutS = opt.timeoutS * 5 // generous: a loaded machine must not turn a proof into an alarm
 			o2.seed = opt.seed + 17
-			// the retry sees the context without control-flow pruning
-			if uq := o.queryModeB(false, false, false); uq != q {
-				_ = os.WriteFile(file, []byte(uq), 0o644)
+			// first the same (pruned) query with a long budget - on a loaded machine
+			// the first attempt may simply have been starved; then the context
+			// without the heuristic prunings
+			useSolvers := solvers
+			if !useCvc5 {
+				useSolvers = solvers[:2]
 			}
-			r := raceSolvers(file, solvers, o2.timeoutS, o2.seed)
+			r := raceSolvers(file, useSolvers, o2.timeoutS, o2.seed)
 			o.Time += r.time
 			if r.status == "unsat" {
 				o.Status, o.Solver = "proved", r.solver+"(retry)"
 				return
 			}
-			if r.status == "sat" {
-				o.Status, o.Output, o.Solver = "failed", "sat", r.solver
-				return
+			if uq := o.queryModeB(false, false, false); uq != q {
+				_ = os.WriteFile(file, []byte(uq), 0o644)
+				r = raceSolvers(file, useSolvers, o2.timeoutS, o2.seed+5)
+				o.Time += r.time
+				if r.status == "unsat" {
+					o.Status, o.Solver = "proved", r.solver+"(retry, full context)"
+					return
+				}
+				if r.status == "sat" {
+					o.Status, o.Output, o.Solver = "failed", "sat", r.solver
+					return
+				}
 			}
 		}
 		o.Status = "unknown"
